@@ -756,6 +756,7 @@ impl<T: Payload> Ctx<T> {
                 let mut vec: Vec<T> = match vs {
                     VecState::Empty => Vec::new(),
                     VecState::Spare => Vec::with_capacity(8),
+                    VecState::Tight => Vec::with_capacity(1),
                     VecState::Prefilled => {
                         let mut v = Vec::with_capacity(2);
                         v.push(T::make(SENTINELS[0]));
@@ -768,7 +769,7 @@ impl<T: Payload> Ctx<T> {
                     RH::Sync(r) => ctl::nowait(NoWait::Peer, || r.drain_into(&mut vec)),
                     RH::Async(r) => ctl::nowait(NoWait::Peer, || r.drain_into(&mut vec)),
                 };
-                let mut prefix_ok = vec.len() >= pre;
+                let mut prefix_ok = vec.len() >= pre && vec.len() <= vec.capacity();
                 if prefix_ok && pre == 2 {
                     prefix_ok = vec[0].tag() == T::tag_of(SENTINELS[0])
                         && vec[1].tag() == T::tag_of(SENTINELS[1])
@@ -852,11 +853,12 @@ impl<T: Payload> Ctx<T> {
                 }
             }
             Op::StreamNext(slot) => {
-                let fut = &mut self.futs[slot as usize];
+                let repoll = slot & crate::prog::REPOLL != 0;
+                let fut = &mut self.futs[(slot & !crate::prog::REPOLL) as usize];
                 match fut {
                     FutI::Stream(f) => {
                         let mut nx = StreamNextFut(f.as_mut());
-                        match block_on(Pin::new(&mut nx), false) {
+                        match block_on(Pin::new(&mut nx), repoll) {
                             Some(v) => got(v),
                             None => Out::r(Res::End),
                         }
@@ -925,6 +927,55 @@ impl<T: Payload> Ctx<T> {
                 FutI::Stream(f) => Out::r(Res::Bool(futures_core::FusedStream::is_terminated(&**f))),
                 _ => panic!("StreamIsTerm on a slot without stream"),
             },
+            Op::CloneFrom(side) => {
+                // a second channel of the same kind; its handle of `side` is
+                // overwritten with a clone of the current one
+                let n = match side {
+                    Side::S => {
+                        let top = self.hs.last().expect("no sender");
+                        match &**top {
+                            SH::Sync(s) => {
+                                let (mut s2, r2) = kanal::bounded::<T>(1);
+                                s2.clone_from(s);
+                                let n = r2.sender_count();
+                                self.hs.push(Box::new(SH::Sync(s2)));
+                                drop(r2);
+                                n
+                            }
+                            SH::Async(s) => {
+                                let (mut s2, r2) = kanal::bounded_async::<T>(1);
+                                s2.clone_from(s);
+                                let n = r2.sender_count();
+                                self.hs.push(Box::new(SH::Async(s2)));
+                                drop(r2);
+                                n
+                            }
+                        }
+                    }
+                    Side::R => {
+                        let top = self.hr.last().expect("no receiver");
+                        match &**top {
+                            RH::Sync(r) => {
+                                let (s2, mut r2) = kanal::bounded::<T>(1);
+                                r2.clone_from(r);
+                                let n = s2.receiver_count();
+                                self.hr.push(Box::new(RH::Sync(r2)));
+                                drop(s2);
+                                n
+                            }
+                            RH::Async(r) => {
+                                let (s2, mut r2) = kanal::bounded_async::<T>(1);
+                                r2.clone_from(r);
+                                let n = s2.receiver_count();
+                                self.hr.push(Box::new(RH::Async(r2)));
+                                drop(s2);
+                                n
+                            }
+                        }
+                    }
+                };
+                Out::r(Res::Num(n as u64))
+            }
             Op::DropHandleUnwinding(side) => {
                 let inv = stamp();
                 match side {
